@@ -1,7 +1,7 @@
 ------------------------------- MODULE TMLight -------------------------------
 (* The light client of tendermint v0.34: light/verifier.go (Verify, VerifyAdjacent,
    VerifyNonAdjacent, verifyNewHeaderAndVals, VerifyBackwards), light/client.go
-   (NewClient / initializeWithTrustOptions, VerifyLightBlockAtHeight, verifyLightBlock,
+   (NewClient / initializeWithTrustOptions, VerifyLightBlockAtHeight, Update, verifyLightBlock,
    verifySequential, verifySkipping with its 9/16 pivot rule and block cache,
    verifySkippingAgainstPrimary, backwards, lightBlockFromPrimary, findNewPrimary,
    removeWitnesses) and light/detector.go (detectDivergence, compareNewHeaderWithWitness,
@@ -50,7 +50,8 @@ CONSTANTS
   Weak_TrustLevelOnNewSet,        \* trust level tallied on the new block's set instead of the trusted one
   Weak_MismatchAlsoCountsAsMatch, \* S2: compareNewHeaderWithWitness sends nil after errConflictingHeaders
   Weak_NoWitnessNeeded,           \* detectDivergence returns nil when no witness matched
-  Weak_BackwardsUnbound           \* backwards() never compares the verified chain's end with the target header
+  Weak_BackwardsUnbound,          \* backwards() never compares the verified chain's end with the target header
+  Weak_ReplacementHashUnchecked   \* after replacing the primary its block is not compared with the target header
 
 Nil == "nil"
 Benign == {"NotFound", "NoResponse", "TooHigh"}       \* client.go: provider errors that keep the provider
@@ -415,7 +416,7 @@ VerifySkippingAgainstPrimary(sc, x, trusted, new, now, sched) ==
        IF v.to = B(sc, new).h THEN [x |-> v.x, res |-> v.err]
        ELSE LET f == FindNewPrimary(sc, v.x, B(sc, new).h, TRUE, sched) IN
             IF f.err # Nil THEN [x |-> f.x, res |-> v.err]
-            ELSE IF B(sc, f.b).hid # B(sc, new).hid THEN [x |-> f.x, res |-> v.err]
+            ELSE IF ~Weak_ReplacementHashUnchecked /\ B(sc, f.b).hid # B(sc, new).hid THEN [x |-> f.x, res |-> v.err]
             ELSE VerifySkippingAgainstPrimary(sc, f.x, trusted, f.b, now, sched)
   ELSE IF v.err = Nil THEN Detect(sc, v.x, v.tr, now, sched)
   \* errors.Unwrap(ErrNewValSetCantBeTrusted) = nil -> `case nil` -> detectDivergence(nil trace)
@@ -435,7 +436,7 @@ SeqLoop(sc, x, verified, new, height, trace, now, sched) ==
       ELSE IF v = "invalid" /\ B(sc, f.b).h # B(sc, new).h THEN
            LET g == FindNewPrimary(sc, f.x, B(sc, new).h, TRUE, sched) IN
            IF g.err # Nil THEN [x |-> g.x, res |-> "VF:invalid"]
-           ELSE IF B(sc, g.b).hid # B(sc, new).hid THEN [x |-> g.x, res |-> "VF:invalid"]
+           ELSE IF ~Weak_ReplacementHashUnchecked /\ B(sc, g.b).hid # B(sc, new).hid THEN [x |-> g.x, res |-> "VF:invalid"]
            ELSE SeqLoop(sc, g.x, verified, new, height, trace, now, sched)   \* height--; continue
       ELSE [x |-> f.x, res |-> "VF:" \o v]
 
@@ -455,7 +456,7 @@ Backwards(sc, x, verified, new, sched) ==
     ELSE IF VerifyBackwards(B(sc, f.b), B(sc, verified)) THEN Backwards(sc, f.x, f.b, new, sched)
     ELSE LET g == FindNewPrimary(sc, f.x, B(sc, new).h, TRUE, sched) IN
          IF g.err # Nil THEN [x |-> g.x, res |-> "invalid"]
-         ELSE IF B(sc, g.b).hid # B(sc, new).hid THEN [x |-> g.x, res |-> "invalid"]
+         ELSE IF ~Weak_ReplacementHashUnchecked /\ B(sc, g.b).hid # B(sc, new).hid THEN [x |-> g.x, res |-> "invalid"]
          ELSE Backwards(sc, g.x, verified, g.b, sched)
 
 StoredAt(sc, cl, h) == {b \in cl.store : B(sc, b).h = h}
@@ -489,6 +490,15 @@ VerifyAtHeight(sc, cl, cnt, h, now, sched) ==
   ELSE LET f == LightBlockFromPrimary(sc, x, h, sched) IN
        IF f.err # Nil THEN [x |-> f.x, res |-> f.err]
        ELSE VerifyLightBlock(sc, f.x, f.b, now, sched)
+
+\* Update(ctx, now): the primary's latest block, verified if it is above the latest trusted one
+UpdateCall(sc, cl, cnt, now, sched) ==
+  LET x == NewExec(cl, cnt) IN
+  IF cl.store = {} THEN [x |-> x, res |-> Nil]
+  ELSE LET f == LightBlockFromPrimary(sc, x, 0, sched) IN
+       IF f.err # Nil THEN [x |-> f.x, res |-> f.err]
+       ELSE IF B(sc, f.b).h > B(sc, cl.latest).h THEN VerifyLightBlock(sc, f.x, f.b, now, sched)
+       ELSE [x |-> f.x, res |-> Nil]
 
 \* NewClient with an empty store: initializeWithTrustOptions + compareFirstHeaderWithWitnesses
 RECURSIVE FirstLoop(_, _, _, _, _)
